@@ -8,7 +8,11 @@
 (* consulted.                                                              *)
 (*                                                                         *)
 (* Options are records [o, v]; gitconfig is [thr, names, jv, prog] with    *)
-(* "absent" for unset keys.                                                *)
+(* "absent" for unset keys.  Each component is the EFFECTIVE value of the   *)
+(* setting, i.e. the value of its last definition in the order in which    *)
+(* git reports the configuration (what `git config --get` answers); the    *)
+(* harness realises every state both by a single definition and by two     *)
+(* definitions of which the earlier one carries another value.             *)
 (***************************************************************************)
 EXTENDS Integers, Sequences, FiniteSets
 
